@@ -278,4 +278,114 @@ theorem wolfecubic_no_increase_partial (sqrt : Rat → Rat) (junk : WBr Rat) (o 
       simpa using hs
     exact wolfeSelect_le _ _ _ _ _ _ _ (fun h => by rw [hsf] at h; simp at h) (fun _ => hz _)
 
+/-! ### every step length `wolfecubic` tries is non-negative (over `Rat`) -/
+
+theorem smin_nonneg' (a b : Rat) (ha : 0 ≤ a) (hb : 0 ≤ b) : 0 ≤ Scalar.min a b := by
+  unfold Scalar.min; split_ifs <;> assumption
+theorem smax_nonneg' (a b : Rat) (ha : 0 ≤ a) (hb : 0 ≤ b) : 0 ≤ Scalar.max a b := by
+  unfold Scalar.max; split_ifs <;> assumption
+theorem smax_ge_right (a b : Rat) : b ≤ Scalar.max a b := by
+  unfold Scalar.max; split_ifs with h
+  · exact le_refl _
+  · exact not_lt.mp h
+
+theorem wlsCubicInterp_nonneg (sqrt : Rat → Rat) (t1 t2 f1 f2 g1 g2 : Rat) (h1 : 0 ≤ t1) (h2 : 0 ≤ t2) :
+    0 ≤ wlsCubicInterp sqrt t1 t2 f1 f2 g1 g2 := by
+  unfold wlsCubicInterp
+  dsimp only
+  have h2' : (0 : Rat) < Scalar.two := by show (0 : Rat) < 2; norm_num
+  by_cases hs : t2 < t1
+  · simp only [hs, decide_true, ↓reduceIte]
+    split_ifs
+    · exact h1
+    · exact div_nonneg (by linarith) h2'.le
+    · exact smin_nonneg' _ _ (le_trans h2 (smax_ge_right _ _)) h1
+  · simp only [hs, decide_false, Bool.false_eq_true, ↓reduceIte]
+    split_ifs
+    · exact h1
+    · exact div_nonneg (by linarith) h2'.le
+    · exact smin_nonneg' _ _ (le_trans h1 (smax_ge_right _ _)) h2
+
+theorem wolfeZoomT_nonneg (sqrt : Rat → Rat) (dir : Vec Rat) (br : WBr Rat) (insuf : Bool) (h0 : 0 ≤ br.t0) (h1 : 0 ≤ br.t1) :
+    0 ≤ (wolfeZoomT sqrt dir br insuf).1 := by
+  have hi := wlsCubicInterp_nonneg sqrt br.t0 br.t1 br.f0 br.f1 (Vec.dot br.g0 dir) (Vec.dot br.g1 dir) h0 h1
+  have hmin := smin_nonneg' br.t0 br.t1 h0 h1
+  have hmax := smax_nonneg' br.t0 br.t1 h0 h1
+  unfold wolfeZoomT
+  dsimp only
+  have ht : (Scalar.ofRat (1/10) : Rat) = 1/10 := rfl
+  split_ifs
+  · rw [ht]; nlinarith
+  · rw [ht]; nlinarith
+  · exact hi
+
+def WTNonneg (br : WBr Rat) : Prop := 0 ≤ br.t0 ∧ 0 ≤ br.t1
+
+theorem wolfeZoomUpd_tnonneg (value gtd : Rat) (br : WBr Rat) (t fNew : Rat) (gNew : Vec Rat) (gtdNew : Rat)
+    (h : WTNonneg br) (ht : 0 ≤ t) : WTNonneg (wolfeZoomUpd value gtd br t fNew gNew gtdNew).1 := by
+  obtain ⟨h0, h1⟩ := h
+  unfold wolfeZoomUpd WTNonneg
+  dsimp only
+  split_ifs <;> exact ⟨by first | exact ht | exact h0 | exact h1, by first | exact ht | exact h1 | exact h0⟩
+
+theorem wolfeZoom_tnonneg (sqrt : Rat → Rat) (o : Objective Rat) (point dir : Vec Rat) (value gtd maxD : Rat) :
+    ∀ (k iter : Nat) (br : WBr Rat) (insuf : Bool), WTNonneg br →
+      WTNonneg (wolfeZoom sqrt o point dir value gtd maxD k iter br insuf).1 := by
+  intro k
+  induction k with
+  | zero => intro iter br insuf h; exact h
+  | succ k ih =>
+    intro iter br insuf h
+    unfold wolfeZoom
+    dsimp only
+    have hu := wolfeZoomUpd_tnonneg value gtd br (wolfeZoomT sqrt dir br insuf).1
+      (o.f (Vec.axpy point (wolfeZoomT sqrt dir br insuf).1 dir)) (o.grad (Vec.axpy point (wolfeZoomT sqrt dir br insuf).1 dir))
+      (Vec.dot (o.grad (Vec.axpy point (wolfeZoomT sqrt dir br insuf).1 dir)) dir) h (wolfeZoomT_nonneg sqrt dir br insuf h.1 h.2)
+    split_ifs
+    · exact h
+    · exact hu
+    · exact hu
+    · exact ih _ _ _ hu
+
+theorem wolfeBracket_tnonneg (o : Objective Rat) (point dir : Vec Rat) (value gtd : Rat) (junk : WBr Rat) (hj : WTNonneg junk) :
+    ∀ (k iter : Nat) (t tPrev fPrev : Rat) (gPrev : Vec Rat) (fNew : Rat) (gNew : Vec Rat) (gtdNew : Rat),
+      0 ≤ t → 0 ≤ tPrev →
+      WTNonneg (wolfeBracket o point dir value gtd junk k iter t tPrev fPrev gPrev fNew gNew gtdNew).br := by
+  intro k
+  induction k with
+  | zero => intro iter t tPrev fPrev gPrev fNew gNew gtdNew _ _; exact hj
+  | succ k ih =>
+    intro iter t tPrev fPrev gPrev fNew gNew gtdNew ht hp
+    unfold wolfeBracket
+    dsimp only
+    split_ifs
+    · exact ⟨hp, ht⟩
+    · exact ⟨ht, hj.2⟩
+    · exact ⟨hp, ht⟩
+    · refine ih _ _ _ _ _ _ _ _ ?_ ht
+      have : (0 : Rat) ≤ (Scalar.ofRat 10 : Rat) := by show (0 : Rat) ≤ 10; norm_num
+      exact mul_nonneg ht this
+
+/-- the point returned by `wolfecubicJ` is `point + t'·dir` for one of the bracket ends `t' ≥ 0`, or `point` itself -/
+theorem wolfecubicJ_ray (sqrt : Rat → Rat) (junk : WBr Rat) (hj : WTNonneg junk) (o : Objective Rat) (point : Vec Rat) (value : Rat)
+    (dir gradient : Vec Rat) (t : Rat) (ht : 0 ≤ t) :
+    (wolfecubicJ sqrt junk o point value dir gradient t).point = point ∨
+    ∃ t', 0 ≤ t' ∧ (wolfecubicJ sqrt junk o point value dir gradient t).point = Vec.axpy point t' dir := by
+  unfold wolfecubicJ
+  dsimp only
+  have hb := wolfeBracket_tnonneg o point dir value (Vec.dot gradient dir) junk hj wolfeMaxIter 0 t Scalar.zero value gradient
+    (o.f (Vec.axpy point t dir)) (o.grad (Vec.axpy point t dir)) (Vec.dot (o.grad (Vec.axpy point t dir)) dir) ht (le_refl _)
+  have key : ∀ (br : WBr Rat) (single : Bool) (iter : Nat), WTNonneg br →
+      (wolfeSelect point dir value gradient br single iter).point = point ∨
+      ∃ t', 0 ≤ t' ∧ (wolfeSelect point dir value gradient br single iter).point = Vec.axpy point t' dir := by
+    intro br single iter h
+    unfold wolfeSelect
+    split_ifs
+    · exact Or.inr ⟨br.t0, h.1, rfl⟩
+    · exact Or.inr ⟨br.t1, h.2, rfl⟩
+    · exact Or.inl rfl
+  split_ifs
+  · exact key _ _ _ hb
+  · exact key _ _ _ (wolfeZoom_tnonneg sqrt o point dir value _ _ _ _ _ false hb)
+
 end SharkVerif.Opt
